@@ -559,6 +559,53 @@ def r5_strict(ctx, m, res) -> None:
               "per-register lists are the per-shot strings of to_register_bits() in shot order", fn)
 
 
+def _flatmap(m, name, ctx=None):
+    """H when the module function `name` is  def F(xs): for x in xs: if isinstance(x, list): yield from F(x) else: yield H(x)
+    (depth-first flattening of nested lists with H applied to the leaves; H = "" for the identity); None otherwise"""
+    fn = m.functions.get(name)
+    if fn is None or len(fn.args.args) != 1 or fn.args.vararg or fn.args.kwarg:
+        return None
+    p = fn.args.args[0].arg
+    b = real_body(fn)
+    if ctx is not None:
+        try:
+            b = ctx.cfn(f"{m.name}.{name}").body        # guard-clause / continue layouts coincide
+        except Exception:
+            pass
+    if len(b) != 1 or not isinstance(b[0], ast.For) or b[0].orelse or u(b[0].iter) != p or not isinstance(b[0].target, ast.Name) or len(b[0].body) != 1:
+        return None
+    x = b[0].target.id
+    st = b[0].body[0]
+    if not (isinstance(st, ast.If) and u(st.test) == f"isinstance({x}, list)" and len(st.body) == 1 and len(st.orelse) == 1):
+        return None
+    rec, leaf = st.body[0], st.orelse[0]
+    if not (isinstance(rec, ast.Expr) and isinstance(rec.value, ast.YieldFrom) and u(rec.value.value) == f"{name}({x})"):
+        return None
+    if not (isinstance(leaf, ast.Expr) and isinstance(leaf.value, ast.Yield) and leaf.value.value is not None):
+        return None
+    v = leaf.value.value
+    if isinstance(v, ast.Name) and v.id == x:
+        return ""
+    if isinstance(v, ast.Call) and isinstance(v.func, ast.Name) and len(v.args) == 1 and not v.keywords and u(v.args[0]) == x:
+        return v.func.id
+    return None
+
+
+def _flat_bits_of(ctx, m, g):
+    """(leaf function, data) when the iterable g yields leaf(p) for every primitive p of the nested lists in data, depth first:
+    F(data) with F a flattening generator, or (H(p) for p in F(data)) with F flattening with the identity on leaves"""
+    if isinstance(g, ast.Call) and isinstance(g.func, ast.Name) and len(g.args) == 1 and not g.keywords:
+        h = _flatmap(m, g.func.id, ctx)
+        if h:
+            return h, u(g.args[0])
+    if isinstance(g, (ast.GeneratorExp, ast.ListComp)) and len(g.generators) == 1 and not g.generators[0].ifs and isinstance(g.generators[0].target, ast.Name):
+        it, v = g.generators[0].iter, g.generators[0].target.id
+        if isinstance(it, ast.Call) and isinstance(it.func, ast.Name) and len(it.args) == 1 and not it.keywords and _flatmap(m, it.func.id, ctx) == "" \
+                and isinstance(g.elt, ast.Call) and isinstance(g.elt.func, ast.Name) and len(g.elt.args) == 1 and not g.elt.keywords and u(g.elt.args[0]) == v:
+            return g.elt.func.id, u(it.args[0])
+    return None
+
+
 def r6_wrappers(ctx, m, res) -> None:
     from ..tmpl import thas
     RQ = f"{MOD}.QsysResult"
@@ -572,11 +619,23 @@ def r6_wrappers(ctx, m, res) -> None:
     ok = rc is not None and thas(rc, "return {c0: Counter(c1) for c0, c1 in self.register_bitstrings(ANY_, ANY_).items()}")
     ctx.check(ok, "C19.R6", "QsysResult.register_counts counts the per-shot strings", m.path, rc_o.lineno if rc_o else 1, "", rc_o)
     cc_o = res.methods.get("collated_counts")
-    ok = cc_o is not None and thas(ctx.cfn(f"{RQ}.collated_counts"),
-                                   "return Counter(((*((c1, _flat_bitstring(c2)) for c1, c2 in c0.items()),) for c0 in self._collated_shots_iter()))")
+    ok = False
+    if cc_o is not None:
+        # canonical body with the two small helpers of the original seen through; the string of a tag is the bit characters of every
+        # primitive in its (arbitrarily nested) collated values, depth first
+        from ..tmpl import T, tmatch
+        cc = ctx.cfn(f"{RQ}.collated_counts", inline=("_collated_shots_iter", "_flat_bitstring"))
+        rets = [r for r in ast.walk(cc) if isinstance(r, ast.Return)]
+        e = tmatch(rets[0].value, T("Counter(((*((L_t, ''.join(E_g)) for L_t, L_d in L_s.collate_tags().items()),) for L_s in self.results))")) \
+            if len(rets) == 1 and len(cc.body) == 1 and rets[0].value is not None else None
+        if e is not None:
+            ok = _flat_bits_of(ctx, m, ast.parse(e["E_g"], mode="eval").body) == ("_cast_primitive_bit", e["L_d"])
     ctx.check(ok, "C19.R6", "QsysResult.collated_counts", m.path, cc_o.lineno if cc_o else 1, "collated counts pair every tag with the flattened bitstring of its collated values, per shot", cc_o)
+    cc_ok = ok
     fb = m.functions.get("_flat_bitstring")
-    ok = fb is not None and thas(ctx.cfn(f"{MOD}._flat_bitstring"), f"return ''.join((_cast_primitive_bit(c0) for c0 in _flatten({fb.args.args[0].arg})))")
+    # (the two helpers are judged on their own while they exist; without them the rule above has already followed whatever
+    #  flattening generator collated_counts uses, down to its leaves)
+    ok = (fb is None and cc_ok) or fb is not None and thas(ctx.cfn(f"{MOD}._flat_bitstring"), f"return ''.join((_cast_primitive_bit(c0) for c0 in _flatten({fb.args.args[0].arg})))")
     ctx.check(ok, "C19.R6", "_flat_bitstring casts every flattened primitive in order", m.path, fb.lineno if fb else 1, "", fb, found=u(real_body(fb)[-1]) if fb else "")
     fl = m.functions.get("_flatten")
     ok = False
@@ -601,9 +660,9 @@ def r6_wrappers(ctx, m, res) -> None:
                 else:
                     ok = False
             ok = ok and kinds == {"list", "leaf"}
-    ctx.check(ok, "C19.R6", "_flatten recurses into lists in order", m.path, fl.lineno if fl else 1, "", fl)
+    ctx.check(ok or (fl is None and cc_ok), "C19.R6", "_flatten recurses into lists in order", m.path, fl.lineno if fl else 1, "", fl)
     it = res.methods.get("_collated_shots_iter")
-    ok = it is not None and thas(ctx.cfn(f"{RQ}._collated_shots_iter"), "return (c0.collate_tags() for c0 in self.results)")
+    ok = (it is None and cc_ok) or it is not None and thas(ctx.cfn(f"{RQ}._collated_shots_iter"), "return (c0.collate_tags() for c0 in self.results)")
     ctx.check(ok, "C19.R6", "QsysResult._collated_shots_iter", m.path, it.lineno if it else 1, "one collated dictionary per shot, in shot order", it)
     ad = ctx.program.cls(f"{MOD}.QsysShot").methods.get("as_dict")
     ctx.check(ad is not None and u(real_body(ad)[-1]) == "return dict(self.entries)", "C19.R6", "QsysShot.as_dict", m.path, ad.lineno if ad else 1, "", ad)
